@@ -169,11 +169,14 @@ def child_end_to_end(v, vec, tier, rnd):
     expressible = lambda p: all((t['id'], t['keylen']) in ENC_NAME for t in p['transforms'] if t['type'] == 1) and all(t['id'] in INTEG_NAME for t in p['transforms'] if t['type'] == 3) \
         and all(t['id'] in DH_NAME for t in p['transforms'] if t['type'] == 4) and any(t['type'] == 5 for t in p['transforms']) \
         and (p['proto'] == 2) == (not any(t['type'] == 1 for t in p['transforms']))
+    accept = {(json.dumps(aset_ordered(c['offer'])), json.dumps(aset(c['answer']))): c['ok'] for c in vec['accept']}
     locals_ = {json.dumps(aset_ordered(c['mine'])): c['mine'] for c in vec['select'] if c['mine']['proto'] in (2, 3)}
     peers = {json.dumps(aset_ordered(c['sa'][0])): c['sa'][0] for c in vec['select'] if c['mine']['proto'] in (2, 3) and len(c['sa']) == 1 and expressible(c['sa'][0])}
     pairs = [(a, b) for a in peers for b in locals_ if (b, a) in table and peers[a]['proto'] == locals_[b]['proto']]
     with_dh = [x for x in pairs if any(t['type'] == 4 for t in peers[x[0]]['transforms']) and any(t['type'] == 4 for t in locals_[x[1]]['transforms'])]
-    pairs = rnd.sample(with_dh, min(len(with_dh), 25 if tier == 'quick' else 400)) + rnd.sample(pairs, min(len(pairs), 25 if tier == 'quick' else 1200))
+    a_only = [x for x in pairs if any(t['type'] == 4 for t in peers[x[0]]['transforms']) and not any(t['type'] == 4 for t in locals_[x[1]]['transforms'])]
+    pairs = rnd.sample(a_only, min(len(a_only), 20 if tier == 'quick' else 300)) + pairs
+    pairs = pairs[:20 if tier == 'quick' else 300] + rnd.sample(with_dh, min(len(with_dh), 25 if tier == 'quick' else 400)) + rnd.sample(pairs, min(len(pairs), 25 if tier == 'quick' else 1200))
     n = 0
     for a_key, b_key in pairs:
         want = table[(b_key, a_key)]
@@ -209,7 +212,15 @@ def child_end_to_end(v, vec, tier, rnd):
                                 {'A': child_cfg(peers[a_key]), 'B': child_cfg(locals_[b_key]), 'got': got, 'want': aset(want), 'ke_payload': has_ke},
                                 signature={'component': 'child-e2e:choice', 'round': round_})
                     break
+                before = sum(1 for r in w.kernel['A'].requests if r['kind'] == 'NEWSA')
                 nxt, cur = w.dispatch('A', res, 'B'), 'A'
+                installed = sum(1 for r in w.kernel['A'].requests if r['kind'] == 'NEWSA') > before
+                ok = accept.get((a_key, json.dumps(got)))
+                if ok is not None and installed != ok:
+                    v.violation(f'{what}: the requester {"installs" if installed else "refuses"} an answer that the specification says it must {"accept" if ok else "refuse"} '
+                                '(every transform of the answer offered, every type the local policy requires present)',
+                                {'A': child_cfg(peers[a_key]), 'B': child_cfg(locals_[b_key]), 'answer': got}, signature={'component': 'child-e2e:requester', 'installed': installed})
+                    break
                 while nxt is not None:
                     cur = w.peer_of(cur)
                     nxt = w.dispatch(cur, nxt, w.peer_of(cur))
